@@ -278,6 +278,10 @@ type Clause struct {
 type LoopSpec struct {
 	Invariants []Clause
 	Assigns    []string
+	// Iter: ghost statements run at the start of every iteration, with the
+	// loop variables in scope ("iter <stmt>" lines)
+	Iter    []ast.Stmt
+	IterSrc []string
 }
 
 type GhostDecl struct {
@@ -600,6 +604,9 @@ func (cs *ContractSet) parseContractFile(path, pkgPath string) error {
 				cs.Externs[cur.Key] = cur
 			} else {
 				cur.Key = strings.TrimSpace(rest)
+				if prev, dup := cs.Contracts[pkgPath+"."+cur.Key]; dup {
+					return fmt.Errorf("%s:%d: second contract block for %s (first at line %d): merge them", path, l.no, cur.Key, prev.Line)
+				}
 				cs.Contracts[pkgPath+"."+cur.Key] = cur
 			}
 		default:
@@ -722,6 +729,17 @@ func (cs *ContractSet) parseContractFile(path, pkgPath string) error {
 					}
 					curLoop.Invariants = append(curLoop.Invariants, c)
 				}
+			case "iter":
+				if curLoop == nil {
+					return fmt.Errorf("%s:%d: iter outside loop", path, l.no)
+				}
+				src := "package p\nfunc _() {\n" + rest + "\n}"
+				pf, err := parser.ParseFile(token.NewFileSet(), "iter", src, 0)
+				if err != nil {
+					return fmt.Errorf("%s:%d: iter statement: %v", path, l.no, err)
+				}
+				curLoop.Iter = append(curLoop.Iter, pf.Decls[0].(*ast.FuncDecl).Body.List...)
+				curLoop.IterSrc = append(curLoop.IterSrc, rest)
 			case "loop":
 				k, err := strconv.Atoi(strings.Fields(rest)[0])
 				if err != nil {
